@@ -337,6 +337,7 @@ def _roland_exact(c):
     c.param("context", ("const", None))
     c.param("path", ("const", None))
     c.value_class("SectorLink", {"next": "int", "end": "bool"})
+    c.use = {"smpl_extract.util.fat:add_to_sector_links": "smpl_extract.util.fat:add_to_sector_links#walk"}
     c.bind["FAT_NUM_ENTRIES"] = ("int", "FAT_NUM_ENTRIES == 65536")
     c.requires("len(obj.fat_entries) == 65536", "table-length")
     c.requires("forall(0, len(obj.fat_entries), lambda k: 0 <= obj.fat_entries[k] and obj.fat_entries[k] < 65536)", "sixteen-bit-words")
@@ -390,6 +391,8 @@ def _mk_akai_exact(dirs):
         c.param("context", ("const", None))
         c.param("path", ("const", None))
         c.value_class("SectorLink", {"next": "int", "end": "bool"})
+        if not dirs:
+            c.use = {"smpl_extract.util.fat:add_to_sector_links": "smpl_extract.util.fat:add_to_sector_links#walk"}
         c.requires("1 <= len(obj) and len(obj) < 0x4000", "table-shorter-than-the-flag-values")          # 11386 entries in the format
         c.requires("forall(0, len(obj), lambda k: 0 <= obj[k] and obj[k] < 65536)", "sixteen-bit-words")
         c.define("isdir", ["w"], "w == 0x4000 or w == 0x8000")
